@@ -1,18 +1,21 @@
 package generator
 
 import (
+	"net/url"
+
 	"github.com/vkd/goag/specification"
 )
 
 type ClientTemplate struct {
 	Operations []ClientOperationTemplate
-	// BasePath - the path prefix the generated router serves under (LocalClient has to send requests there).
+	// BasePath - the path prefix the generated router serves under (LocalClient has to send requests there),
+	// escaped as it has to be written in the client's base URL.
 	BasePath string
 }
 
 func NewClient(s *specification.Spec, ops []*Operation, basePath string) ClientTemplate {
 	var c ClientTemplate
-	c.BasePath = basePath
+	c.BasePath = (&url.URL{Path: basePath}).EscapedPath()
 	c.Operations = make([]ClientOperationTemplate, 0, len(ops))
 	for _, o := range ops {
 		co := NewClientOperation(o)
